@@ -704,6 +704,15 @@ impl<'tcx> Interp<'tcx> {
             let mut arr = ArrV::uniform(Val::Bot, nn);
             let f = a.get(0)?.clone();
             let slot = self.temp_slot(st, f);
+            if self.fast_from_fn && nn >= 2 {
+                // one call on the abstract index [0, N-1] stands for every element
+                let cur = std::mem::replace(st, State::empty());
+                let parts = self.call_closure(cur, &Val::Ref(slot.clone()), tys[0], vec![Val::Int(IntV::new(0, nn as i128 - 1, ITy::USIZE))]);
+                let (s, r) = self.join_parts(parts)?;
+                *st = s;
+                self.free_temp(st, &slot);
+                return one(Val::Arr(Rc::new(ArrV::uniform(r, nn))));
+            }
             let mut cur = std::mem::replace(st, State::empty());
             for i in 0..nn {
                 let parts = self.call_closure(cur, &Val::Ref(slot.clone()), tys[0], vec![Val::konst(i as i128, ITy::USIZE)]);
